@@ -48,7 +48,7 @@ ESCAPED_LOOKING = ['%41', 'next=%2Fhome', '50%25off', '%E3%81%82', 'a%2', '%%41'
 
 def value_text(rng):
     if rng.random() < 0.12: return rng.choice(ESCAPED_LOOKING)
-    return ''.join(uni(rng) for _ in range(rng.choice([1, 1, 2, 4, 9])))
+    return ''.join(uni(rng) for _ in range(rng.choice([0, 1, 1, 2, 4, 9])))          # the empty value too: `n=` and `n=""`
 
 
 def enc_value(rng, v):
